@@ -93,6 +93,32 @@ def launch_si(powers):
                                                  label=[f'ch{k + 1}' for k in range(n)])
 
 
+def description(powers, order):
+    """the same launch as launch_si(), as the per-channel arrays a caller hands to the SpectralInformation constructor
+    itself (nothing has noise yet: signal share 1), the channels listed in the given order"""
+    n = len(powers)
+    return dict(frequency=np.array([F1 + SPACING * k for k in order]), baud_rate=np.array([BAUD[k] for k in order]),
+                slot_width=np.array([SLOT[k] for k in order]), pch=np.array([float(powers[k]) for k in order]),
+                signal_ratio=np.ones(n), ase_ratio=np.zeros(n), nli_ratio=np.zeros(n), roll_off=np.full(n, 0.15),
+                chromatic_dispersion=np.zeros(n), pmd=np.zeros(n), pdl=np.zeros(n), latency=np.zeros(n),
+                delta_pdb_per_channel=np.zeros(n), tx_osnr=np.full(n, 40.0),
+                tx_power=np.array([float(powers[k]) for k in order]), label=np.array([f'ch{k + 1}' for k in order]))
+
+
+LAUNCHES = ('helper', 'constructor, channels in frequency order', 'constructor, channels in another order')
+
+
+def launch_pair(powers, how):
+    """(spectrum to drive, twin): two spectra launched from ONE description - through the create_* helper called twice,
+    or by handing the SAME arrays twice to the constructor (model: parts[1] and twin)"""
+    if how == 0:
+        return launch_si(powers), launch_si(powers)
+    from gnpy.core.info import SpectralInformation
+    n = len(powers)
+    desc = description(powers, list(range(n)) if how == 1 else [(k + 1) % n for k in range(n)][::-1])
+    return SpectralInformation(**desc), SpectralInformation(**desc)
+
+
 def ids_of(si):
     return [int(round((f - F1) / SPACING)) + 1 for f in si.frequency]
 
@@ -183,6 +209,7 @@ def replay(chk, behaviours, what='ledger'):
     worst = [0.0]
     seen = set()
     steps = 0
+    launched = {}
     for hist in behaviours:
         key = zlib.crc32(repr([(s['op'], s['j'], s['arg']) for s in hist]).encode())
         if key in seen:
@@ -190,9 +217,12 @@ def replay(chk, behaviours, what='ledger'):
         seen.add(key)
         unit = UNITS[key % len(UNITS)]          # from watts down to picowatts per model unit
         powers = [float(p) * unit for p in (1, 2, 4)]
+        how = (key // len(UNITS)) % len(LAUNCHES)
+        launched[how] = launched.get(how, 0) + 1
         ok = True
         try:
-            parts = [launch_si(powers)]
+            si, twin = launch_pair(powers, how)
+            parts = [si]
             source = None                   # the real spectrum the sub-spectra were extracted from (model: src)
             for n, step in enumerate(hist):
                 if step['op'] == 'Demux' and len(parts) == 1:
@@ -202,21 +232,28 @@ def replay(chk, behaviours, what='ledger'):
                     source = None
                 steps += 1
                 bad = compare(parts, step, worst, what, unit)
+                sig = f'{what}-differ-from-model'
                 if not bad and what == 'ledger' and source is not None:
                     bad = compare([source], dict(parts=[step['src']]), worst, 'ledger', unit)
                     bad = bad and 'source spectrum of the extraction: ' + bad
+                if not bad and what == 'ledger':
+                    # the spectrum launched from the same description and never driven (model: twin)
+                    bad = compare([twin], dict(parts=[step['twin']]), worst, 'ledger', unit)
+                    bad = bad and 'twin spectrum (same launch description, never driven): ' + bad
+                    sig = 'twin-spectrum-differs-from-model' if bad else sig
                 if bad:
                     prev = hist[n - 1]['op'] if n else 'Launch'
-                    chk.violation(f'B2|{step["op"]}|after-{prev}|{what}-differ-from-model',
+                    chk.violation(f'B2|{step["op"]}|after-{prev}|{sig}',
                                   dict(ops=[(s['op'], s['j']) for s in hist[:n + 1]], step=n + 1, difference=bad, watts_per_unit=unit,
-                                       arg=step['arg']))
+                                       arg=step['arg'], launched_through=LAUNCHES[how]))
                     ok = False
                     break
         except Machinery:
             raise
         except Exception as e:                                     # noqa
             chk.violation(f'B2|{type(e).__name__}|exception-in-ledger-operation',
-                          dict(ops=[(s['op'], s['j']) for s in hist], exception=f'{type(e).__name__}: {e}'))
+                          dict(ops=[(s['op'], s['j']) for s in hist], exception=f'{type(e).__name__}: {e}',
+                               launched_through=LAUNCHES[how]))
             ok = False
         chk.case(key, nontrivial=any(s['op'] in ('AddASE', 'AddNLI') for s in hist))
         if ok:
@@ -227,6 +264,7 @@ def replay(chk, behaviours, what='ledger'):
                             final_ledger=[{k: (f'{ch[k][0]}/{ch[k][1]}' if k != 'id' else ch[k]) for k in ('id', 'P', 'S', 'A', 'N')}
                                           for ch in hist[-1]['parts'][0]]), limit=1)
     chk.cov['b2_behaviours'] = len(seen)
+    chk.cov['b2_launched_through'] = {LAUNCHES[h]: c for h, c in sorted(launched.items())}
     chk.cov['b2_steps'] = steps
     chk.cov['b2_relative_tolerance'] = REL
     chk.cov['b2_worst_relative_deviation'] = worst[0]
